@@ -291,9 +291,11 @@ def struct_harnesses(p: Program, s: Struct):
                         [f"#[kani::proof_for_contract({S}::with_{fb})]"], struct=s, fld=f, inputs=ins, needs=[(S, f"with_{fb}")]))
             heavy = False   # (kept for reference) see DESIGN.md: callee contracts are detached instead
             if not heavy:
+                deleg = getattr(f, "set_calls_with", False)
                 hs.append(H(f"{pre}_{fb}_set", "set", f"{S}::set_{fb}",
                             f"{any_struct(s, 's_', True)} {idx_decl} {anyv} s_.set_{fb}({idx_arg}in_val); kani::cover!(true);",
-                            [f"#[kani::proof_for_contract({S}::set_{fb})]"], struct=s, fld=f, inputs=ins, needs=[(S, f"set_{fb}")]))
+                            [f"#[kani::proof_for_contract({S}::set_{fb})]"] + ([f"#[kani::stub_verified({S}::with_{fb})]"] if deleg else []),
+                            struct=s, fld=f, inputs=ins, needs=[(S, f"set_{fb}")] + ([(S, f"with_{fb}")] if deleg else [])))
             else:
                 # Kani's modifies() instrumentation blows up (57 s, 4.9 GB per harness) when the body reaches UInt::new's
                 # panic path; the same postcondition is asserted in a loop-free full-domain harness instead (complete proof,
